@@ -38,6 +38,42 @@ def summary_line(out: str) -> str:
     return lines[-1].strip() if lines else out.strip().splitlines()[-1] if out.strip() else ""
 
 
+def pass_set(junit_path: str) -> set:
+    import xml.etree.ElementTree as ET
+    res, bad = set(), set()
+    try:
+        root = ET.parse(junit_path).getroot()
+    except Exception:
+        return set()
+    for tc in root.iter("testcase"):
+        tid = f"{tc.get('classname')}::{tc.get('name')}"
+        if any(ch.tag in ("failure", "error", "skipped") for ch in tc):
+            bad.add(tid)
+        else:
+            res.add(tid)
+    return res - bad
+
+
+def baseline_pass_set(head: str) -> set:
+    """passing tests of the unchanged tree at this /repo HEAD (cached under /tmp; intersection of what passes there with
+    the official stable-pass list of /root/.vp/BASELINE.json when that is readable)"""
+    cache = f"/tmp/seed-baseline-pass-{head}.json"
+    if os.path.exists(cache):
+        return set(json.load(open(cache)))
+    wt = f"/tmp/seedwt-baseline-{head}"
+    sh(f"git -C /repo worktree remove --force {wt}")
+    sh(f"git -C /repo worktree add -q --detach {wt} HEAD && cp /repo/src/easynetwork/version.py {wt}/src/easynetwork/")
+    jx = f"/tmp/seedjunit-baseline-{head}.xml"
+    try:
+        sh(f"{PY} -m pytest -q -p no:cacheprovider --timeout=900 --continue-on-collection-errors --junitxml={jx} 2>&1 | tail -3",
+           cwd=wt, env={"PYTHONPATH": f"{wt}/src"}, timeout=3000)
+        got = pass_set(jx)
+    finally:
+        sh(f"git -C /repo worktree remove --force {wt}")
+    json.dump(sorted(got), open(cache, "w"))
+    return got
+
+
 def main():
     pid, mn = sys.argv[1], sys.argv[2]
     suite = "--suite" in sys.argv
@@ -97,9 +133,21 @@ def main():
             meta["demo_confirms"] = failed(rc1, out1) and not failed(rc0, out0)
         if suite:
             t0 = time.time()
-            rc, out = sh(f"{PY} -m pytest -q -p no:cacheprovider --timeout=900 tests/unit_test tests/functional_test 2>&1 | tail -3", cwd=wt, env=env, timeout=3000)
+            jx = f"/tmp/seedjunit-{pid}-{mn}.xml"
+            rc, out = sh(f"{PY} -m pytest -q -p no:cacheprovider --timeout=900 --continue-on-collection-errors --junitxml={jx} 2>&1 | tail -3", cwd=wt, env=env, timeout=3000)
             meta["suite_with_change"] = summary_line(out)
             meta["suite_wall_s"] = round(time.time() - t0)
+            base = baseline_pass_set(meta["repo_head"])
+            got = pass_set(jx)
+            lost = sorted(base - got)
+            meta["suite_baseline_passing"] = len(base)
+            meta["suite_passing_with_change"] = len(got)
+            meta["suite_lost_tests"] = lost[:20]
+            meta["suite_ok"] = not lost
+            try:
+                os.unlink(jx)
+            except OSError:
+                pass
         meta["checks"] = {}
         for c in checks:
             t0 = time.time()
